@@ -46,7 +46,7 @@ def parsePath (kv : KV) : PathV :=
     runOnDemand := gS kv "rod", runOnUnDemand := gS kv "roud", runOnInit := gS kv "roi",
     record := gB kv "rec", recordPath := gS kv "rp", segDur := gI kv "sd", delAfter := gI kv "da",
     pubUser := gOS kv "pu", pubPass := gOS kv "pp", readUser := gOS kv "ru", readPass := gOS kv "rpw",
-    camID := gN kv "cam", secondary := gB kv "sec", width := gN kv "w", height := gN kv "h",
+    udpRange := gN kv "uprn", camID := gN kv "cam", secondary := gB kv "sec", width := gN kv "w", height := gN kv "h",
     codec := gS kv "codec", exposure := gS kv "exp", awb := gS kv "awb", awbGains := gN kv "awbn",
     denoise := gS kv "den", metering := gS kv "met", afMode := gS kv "afm", afRange := gS kv "afr", afSpeed := gS kv "afs",
     profile := gOS kv "prof", level := gOS kv "lvl", hwProfile := gOS kv "hwp", hwLevel := gOS kv "hwl",
@@ -196,11 +196,16 @@ def step (_ : Unit) (op impl : String) : Unit × DrvOut :=
               | none => "FAIL unparsable implementation answer"
               | some iv =>
                 match violations iv with
-                | [] => "ok"
+                | [] =>
+                  -- every enforced constraint holds; the one documented constraint nothing enforces:
+                  if rangeArityClass iv then "KNOWN udp-port-range-arity accepted configuration has an rtspUDPSourcePortRange that is not a pair of ports (the rtsp static source indexes [0] and [1]: the process panics)"
+                  else "ok"
                 | l => "FAIL accepted configuration violates: " ++ "; ".intercalate l
           match validate v with
           | .error _ => ((), { model := "err", spec })
           | .ok v' =>
+            -- the proposed length check (`validateFixed`): a tree that rejects exactly the class
+            if impl == "err" && rangeArityClass v' then ((), { model := "err", spec }) else
             match implView with
             | some iv =>
               -- `ucustom` is an oracle about the users BEFORE Validate; it is not compared afterwards
